@@ -3,7 +3,7 @@
 # Confirms: suite passes with patch; demo fails with patch; demo passes without patch.
 D=$1; W=$2
 cd "$W" || exit 2
-git checkout -q -- . ; git clean -fdq -e target
+git reset -q; git checkout -q -- . ; git clean -fdq -e target
 run() { cargo test --workspace --offline -j 6 --no-fail-fast -- --test-threads 6 > "$1" 2>&1; 
   # failed tests other than the two known flaky ones
   grep -E "^test .* FAILED|^    [a-z_:0-9]+$" "$1" | grep -v "request_invalid_frame_after_trailers\|request_invalid_frame_first" | grep -c "FAILED"; }
@@ -13,6 +13,6 @@ git apply "$D/demo.diff" || { echo '{"error":"demo does not apply"}' > "$D/confi
 f2=$(run "$D/demo_with_patch.log"); c2=$(grep -c "^error" "$D/demo_with_patch.log")
 git apply -R "$D/patch.diff"
 f3=$(run "$D/demo_without_patch.log"); c3=$(grep -c "^error" "$D/demo_without_patch.log")
-git checkout -q -- . ; git clean -fdq -e target
+git reset -q; git checkout -q -- . ; git clean -fdq -e target
 echo "{\"suite_failures_with_patch\": $f1, \"compile_errors_with_patch\": $c1, \"failures_with_patch_and_demo\": $f2, \"compile_errors_2\": $c2, \"failures_with_demo_only\": $f3, \"compile_errors_3\": $c3, \"head\": \"$(git rev-parse --short HEAD)\"}" > "$D/confirm.json"
 cat "$D/confirm.json"
